@@ -237,6 +237,10 @@ class Sim:
         step_cap: int = 200_000,
     ) -> None:
         self.n = n
+        from . import depmon
+
+        depmon.install()
+        self.dep_before = depmon.count()  # (non-finite returns of torch.linalg.eigh seen before this world started)
         self.rng = random.Random(schedule_seed)
         self.replay_schedule = list(schedule) if schedule is not None else None
         self.replay_pos = 0
